@@ -21,7 +21,7 @@ ASSUMPTIONS = ["Redis and RabbitMQ are wire-level fakes (RabbitMQ rule R2: per-m
                "virtual time; bounded latency L = 10 s of virtual time after max(T, consumer start)",
                "early = more than 1 ms before T"]
 EVAL_COUNTER = "deliveries_judged"
-REQUIRED = ["deliveries_judged", "due_past", "due_subsecond", "due_seconds", "due_far", "visibility_probes", "multi_scenarios"]
+REQUIRED = ["deliveries_judged", "due_past", "due_subsecond", "due_seconds", "due_far", "visibility_probes", "multi_scenarios", "peek_scenarios", "peek_returns"]
 CASE_TIMEOUT = 120
 
 OFFSETS = [-5.0, -0.000001, 0.0004, 0.3, 0.9995, 1.0, 1.5, 5.0, 3600.0, 2592000.0]
@@ -56,6 +56,12 @@ def gen_cases(tier, seed):
                           "running_consumer": rnd.random() < 0.6, "latency": None if kind == "mem" else rnd.choice([None, 0.003])})
         for i in range({"quick": 4, "thorough": 24}[tier]):
             cases.append({"type": "vis", "kind": kind, "offset": rnd.choice([25.0, 60.0, 3600.0, 2592000.0]), "phase": rnd.choice(PHASES), "seed": rnd.randrange(10**6)})
+        # a delayed message is looked at through the DELAYED category and given back (reject / finish), while a normal
+        # consumer keeps listening: still never early, still delivered within the bound after T
+        holds = ["short", "past_earlier", "past_T"]
+        for i in range({"quick": 6, "thorough": 36}[tier]):
+            cases.append({"type": "peek", "kind": kind, "T": rnd.choice([6.0, 8.0, 12.5]), "hold": holds[i % 3], "back": ["reject", "finish"][(i // 3) % 2],
+                          "earlier": i % 2 == 0 or holds[i % 3] == "past_earlier", "retry_like": rnd.random() < 0.5, "phase": rnd.choice(PHASES), "seed": rnd.randrange(10**6)})
     return cases
 
 
@@ -242,6 +248,94 @@ async def multi(loop, case, out, stats, fps, samples):
         rig.close()
 
 
+async def peek(loop, case, out, stats, fps):
+    from repid.data._parameters import DelayProperties, RetriesProperties
+    from repid.message import MessageCategory
+    from rv.rigs import Rig, key_of
+
+    kind = case["kind"]
+    rig = Rig(kind, loop, latency=None, seed=case["seed"])
+    try:
+        conn = rig.make_connection("p1")
+        await conn.connect()
+        mb = conn.message_broker
+        await mb.queue_declare("q")
+        loop.jump((case["phase"] - loop.time() % 1.0) % 1.0 + 1.0)
+        P = mb.PARAMETERS_CLASS
+        t0 = loop.time()
+        T = datetime.now() + timedelta(seconds=case["T"])
+        extra = {"retries": RetriesProperties(max_amount=3, already_tried=1)} if case["retry_like"] else {}
+        await mb.enqueue(key_of(conn, "m1", "t", "q"), "p", P(delay=DelayProperties(next_execution_time=T), **extra))
+        due = {"m1": vt(T)}
+        if case["earlier"]:
+            E = datetime.now() + timedelta(seconds=case["T"] / 3)
+            await mb.enqueue(key_of(conn, "e1", "t", "q"), "p", P(delay=DelayProperties(next_execution_time=E)))
+            due["e1"] = vt(E)
+        got = {}
+        normal = mb.get_consumer("q", None, None, MessageCategory.NORMAL)
+        await normal.start()
+
+        async def listen():
+            while True:
+                key, _, _ = await normal.consume()
+                got.setdefault(key.id_, loop.time())
+                await mb.ack(key)
+
+        listener = loop.create_task(listen())
+        await asyncio.sleep(0.3)
+        dc = mb.get_consumer("q", ["t"] if kind != "rabbit" else None, None, MessageCategory.DELAYED)
+        await dc.start()
+        held, others = None, []
+        for _ in range(3):
+            try:
+                key, _, _ = await asyncio.wait_for(dc.consume(), 2.1)
+            except asyncio.TimeoutError:
+                break
+            if key.id_ == "m1":
+                held = key
+                break
+            others.append(key)
+        for key in others:
+            await mb.reject(key)  # the earlier one goes back at once
+        fps.add(f"{kind}/peek/{case['T']}/{case['hold']}/{case['back']}/{case['earlier']}/{case['retry_like']}")
+        stats["peek_scenarios"] += 1
+        if held is None:
+            if "m1" not in got:
+                out.append(V("invisible_as_delayed", kind, "DELAYED/peek", f"due in {case['T']}s: a DELAYED consumer did not receive it within 6 s; state {rig.snapshot().get('m1')}"))
+        else:
+            until = {"short": t0 + 1.5, "past_earlier": t0 + case["T"] / 3 + 1.6, "past_T": t0 + case["T"] + 1.2}[case["hold"]]
+            await asyncio.sleep(max(0.05, until - loop.time()))
+            t_back = loop.time()
+            # only the in-memory consumer's finish() returns what it handed out; elsewhere the client gives it back
+            if case["back"] == "reject" or kind != "mem":
+                await mb.reject(held)
+            await dc.finish()
+            stats["peek_returns"] += 1
+            horizon = max(due["m1"], t_back) + L_BOUND + 2
+            while loop.time() < horizon and len(got) < len(due):
+                await asyncio.sleep(0.25)
+            for id_, tT in due.items():
+                stats["deliveries_judged"] += 1
+                if id_ not in got:
+                    out.append(V("late", kind, f"peek/{case['hold']}/{case['back']}", f"{id_} (due +{tT - t0:.3f}s, given back by the DELAYED consumer at +{t_back - t0:.3f}s) not delivered to the listening consumer by +{horizon - t0:.1f}s; state {rig.snapshot().get(id_)}"))
+                elif tT - got[id_] > 0.001:
+                    out.append(V("early", kind, f"peek/{case['hold']}", f"{id_} delivered {(tT - got[id_]) * 1000:.3f} ms early"))
+                elif got[id_] - max(tT, t_back if id_ == "m1" else tT) > L_BOUND:
+                    out.append(V("late", kind, f"peek/{case['hold']}/{case['back']}", f"{id_} delivered {got[id_] - max(tT, t_back):.3f}s after it was due and back"))
+        listener.cancel()
+        try:
+            await listener
+        except BaseException:  # noqa: BLE001
+            pass
+        await normal.finish()
+        if held is None:
+            await dc.finish()
+        await conn.disconnect()
+        stats["unknown_server_commands"] += rig.unknown_commands()
+    finally:
+        rig.close()
+
+
 async def vis(loop, case, out, stats, fps):
     """Before T the message is returned by a DELAYED-category consumer and by no NORMAL or DEAD one."""
     from repid.data._parameters import DelayProperties
@@ -296,6 +390,10 @@ def run_case(case):
         res = vl.run(lambda loop: multi(loop, case, out, stats, fps, samples), max_steps=3_000_000, seed=case["seed"])
         if res.exc is not None:
             out.append(V("harness_or_api_error", case["kind"], "multi", f"{type(res.exc).__name__}: {res.exc}"))
+    elif case["type"] == "peek":
+        res = vl.run(lambda loop: peek(loop, case, out, stats, fps), max_steps=6_000_000, seed=case["seed"])
+        if res.exc is not None:
+            out.append(V("harness_or_api_error", case["kind"], "peek", f"{type(res.exc).__name__}: {res.exc}"))
     else:
         res = vl.run(lambda loop: vis(loop, case, out, stats, fps), max_steps=3_000_000, seed=case["seed"])
         if res.exc is not None:
